@@ -15,7 +15,8 @@ EXPLANATION = (
     "Decides these shapes, not delivery across the network."
     ' REFILL: the buffer handed to read() by the inline channel is a whole buffer of positive constant length; FRAG-ID: fragment ids come from a counter shared by all writers of a connection.'
     ' ERR also requires that no Ok(Some(frame)) is reachable from the Err edge of a receive result before the next receive; LBL includes the session-target label of listener-side sessions.'
-    ' HEAD: Frame::read_head and Frame::from_buffer agree on header fields and size, and the frame length is not computed at a width where ATTR_LEN + BODY_LEN can wrap (a sum formed at u16 and widened afterwards is not that sum).')
+    ' HEAD: Frame::read_head and Frame::from_buffer agree on header fields and size, and the frame length is not computed at a width where ATTR_LEN + BODY_LEN can wrap (a sum formed at u16 and widened afterwards is not that sum).'
+    ' RECV-BUF: every datagram receive site gets a buffer of constant length >= 65527 (the largest UDP payload; 65507 is the IPv4 figure).')
 RULE_TEXT = "instances = frame locals, receive sites, writer impls, session maps"
 TRUSTED = ["kernel UDP demultiplexing between listener and connected session sockets", "mpsc channels deliver what is sent"]
 NOT_DECIDED = ["delivery as exactly one datagram across the network", "cross-session behaviour under concurrency", "kernel demultiplexing"]
@@ -174,10 +175,65 @@ def rule_session_label(chk, prog, rule="LBL"):
                     "the datagram's source, so later datagrams of the session carry the client's own address as destination" % why)
 
 
+MAX_UDP_PAYLOAD = 65527          # 65535 - 8 (UDP header); over IPv4 the IP header takes another 20, over IPv6 it does not count
+
+
+def rule_recv_buf(chk, prog, rule="RECV-BUF"):
+    """A datagram longer than the buffer handed to recv_from / recvmsg is cut to the buffer's length without any error, and the proxy
+    would forward the shortened datagram as if it were whole.  Every datagram receive site gets a buffer of constant length >= 65527,
+    the largest UDP payload there is (65507 is the IPv4 figure; an IPv6 datagram can carry 20 bytes more).  Sites = UdpSocket::recv* calls
+    and callers of the crate's own recvmsg wrappers."""
+    wrappers = set()
+    for f in prog.fns.values():
+        if f.crate == "redproxy_rs" and any(re.search(r"nix::sys::socket::recvmsg$", c.path or "") for c in f.calls):
+            wrappers.add(prog.top_parent(f).key if hasattr(prog, "top_parent") else f.key)
+    n = 0
+    for f in sorted(prog.fns.values(), key=lambda x: x.key):
+        if f.crate != "redproxy_rs":
+            continue
+        for c in f.calls:
+            is_sock = re.search(r"^tokio::net::udp::UdpSocket::(recv_from|recv|try_recv_from|try_recv|peek_from|recv_buf_from|recv_buf)$", c.path or "") is not None
+            lk = c.local_key()
+            is_wrap = lk in wrappers and lk != f.key and not f.key.startswith(lk + "::")
+            if not (is_sock or is_wrap) or len(c.args) < 2:
+                continue
+            n += 1
+            l = op_base(c.args[1])
+            size = None
+            why = "buffer not understood"
+            if l is not None:
+                THRU = [r"Deref(Mut)?::deref(_mut)?$", r"AsMut::as_mut$", r"BytesMut::as_mut$", r"Vec::<T, A>::as_mut_slice$"]
+                for k, info in f.trace(l, through_calls=THRU):
+                    if k == "call":
+                        if any(re.search(x, info.path or "") for x in THRU):
+                            continue
+                        if re.search(r"bytes_mut::BytesMut::zeroed$", info.path or "") and info.args:
+                            size = f.int_of(info.args[0])
+                        elif re.search(r"vec::from_elem$", info.path or "") and len(info.args) > 1:
+                            size = f.int_of(info.args[1])
+                        break
+                    if k in ("ref", "place") and info:
+                        m = re.search(r"\[u8; (\d+)\]", f.local_ty_s(info[0]))
+                        if m:
+                            size = int(m.group(1))
+                            break
+            ok = size is not None and size >= MAX_UDP_PAYLOAD
+            if size is not None:
+                why = "buffer of %d bytes" % size
+            chk.instance(rule, c.where(), "%s in %s receives into a buffer that holds any datagram" % (short(c.name or c.path), f.path), ok, why)
+            if not ok:
+                chk.finding(rule, f.key, short(c.name or c.path), "", c.where(),
+                            "%s receives a datagram into a %s: a datagram of up to %d payload bytes (IPv6) is cut to the buffer's length without "
+                            "an error and forwarded shortened" % (f.path, why, MAX_UDP_PAYLOAD))
+    chk.floor(rule, n, 2, "datagram receive sites")
+
+
+
 def run(chk, prog):
     rule_refill(chk, prog)
     rule_session_label(chk, prog)
     rule_frag_id(chk, prog)
+    rule_recv_buf(chk, prog)
     # the inline (stream) channel cuts frames by Frame::read_head: its length arithmetic must agree with from_buffer and must not wrap
     # for a maximum-size datagram with a long address label
     from .c12 import rule_head_agreement
